@@ -875,3 +875,249 @@ Proof.
   assert (Hlt : jmk p <? P = true) by (apply Nat.ltb_lt; apply Hjm; exact Hp). rewrite Hlt. reflexivity.
 Qed.
 
+(** ** The original code (all three repairs off): machine-checked counter-examples *)
+
+Definition one_part : component := mkcomp false 1.
+
+(** D1: 2 ranks, 3 non-vanishing components.  Colour 0 = {rank 0} computes two components, colour 1 = {rank 1} one;
+    every compute issues MPI_Barrier(MPI_COMM_WORLD), so the two ranks issue different sequences on the world
+    communicator ... *)
+Theorem collectives_match_refuted : exists P comps clear jm,
+  let col := float_colouring P (length comps) in
+  ~ collectives_match col P (split_trace none_fixed col P comps clear jm).
+Proof.
+  exists 2, [one_part; one_part; one_part], true, (fun _ _ => 0). cbv zeta. intros [H _].
+  specialize (H World 0 1 ltac:(simpl; auto) ltac:(simpl; auto)).
+  revert H. vm_compute. discriminate.
+Qed.
+
+(** ... and the run deadlocks in the blocking semantics: a reachable state in which ranks still have collectives
+    to issue and no communicator can proceed. *)
+Lemma no_step_b_spec : forall col P st, no_step_b col P st = true -> forall cm, coll_step col P cm st = None.
+Proof.
+  intros col P st H cm. unfold no_step_b in H. rewrite forallb_forall in H.
+  assert (Hin : forall cm', In cm' (comms_of col P) -> coll_step col P cm' st = None).
+  { intros cm' Hc. specialize (H cm' Hc). destruct (coll_step col P cm' st); [discriminate|reflexivity]. }
+  destruct cm as [|c]; [apply Hin; left; reflexivity|].
+  destruct (in_dec Nat.eq_dec c (nodup Nat.eq_dec (map (pcol col) (seq 0 P)))) as [Hc|Hc].
+  - apply Hin. right. apply in_map. exact Hc.
+  - unfold coll_step. replace (members col P (Colour c)) with (@nil nat); [reflexivity|].
+    symmetry. simpl. apply filter_nil_iff. intros r Hr. apply Nat.eqb_neq. intro E. apply Hc.
+    apply nodup_In. rewrite <- E. apply in_map. exact Hr.
+Qed.
+
+Lemma stuck_lift : forall col P (o : option (nat -> list event)),
+  match o with Some st => negb (all_done P st) && no_step_b col P st | None => false end = true ->
+  match o with
+  | Some st => all_done P st = false /\ forall cm, coll_step col P cm st = None
+  | None => False
+  end.
+Proof.
+  intros col P [st|] H; [|discriminate]. apply andb_prop in H. destruct H as [H1 H2].
+  split; [apply negb_true_iff; exact H1|apply no_step_b_spec; exact H2].
+Qed.
+
+Theorem split_deadlock_refuted : exists P comps clear jm sched,
+  let col := float_colouring P (length comps) in
+  match coll_run col P sched (split_trace none_fixed col P comps clear jm) with
+  | Some st => all_done P st = false /\ forall cm, coll_step col P cm st = None
+  | None => False
+  end.
+Proof.
+  exists 2, [one_part; one_part; one_part], true, (fun _ _ => 0).
+  exists (snd (fst (coll_exec (float_colouring 2 3) 2 100
+                        (split_trace none_fixed (float_colouring 2 3) 2 [one_part; one_part; one_part] true (fun _ _ => 0))))).
+  cbv zeta. apply stuck_lift. vm_compute. reflexivity.
+Qed.
+
+(** D2: 2 ranks, 1 component with 1 part, non-empty frequency list: both ranks have colour 0, the reduction goes to
+    rank 0 but the broadcast root is rank 1: every rank returns a table of zeros. *)
+Theorem reduce_root_refuted : exists P comps clear jm,
+  let col := float_colouring P (length comps) in
+  forall r, r < P -> exists st, nth_error (split_state none_fixed col P comps clear true jm r) 0 = Some st /\
+                                tab st = TData [] /\ ~ is_full_sum 1 (tab st).
+Proof.
+  exists 2, [one_part], true, (fun _ _ => 0). cbv zeta. intros r Hr.
+  assert (Hnot : ~ is_full_sum 1 (TData [])).
+  { intros [l [E Hp]]. inversion E. subst l. apply Permutation_nil in Hp. discriminate. }
+  destruct r as [|[|r]]; [| |lia]; eexists; (split; [vm_compute; reflexivity|]); (split; [reflexivity|exact Hnot]).
+Qed.
+
+(** D3: 2 ranks, 2 components, terms kept: rank 0 cannot evaluate component 1 (and rank 1 not component 0),
+    although computeAll returned it there and its terms were received. *)
+Theorem status_refuted : exists P comps jm r k c st,
+  let col := float_colouring P (length comps) in
+  r < P /\ nth_error comps k = Some c /\
+  nth_error (split_state none_fixed col P comps false true jm r) k = Some st /\
+  has_all_terms c st = true /\ evaluable c st = false.
+Proof.
+  exists 2, [one_part; one_part], (fun _ _ => 0), 0, 1, one_part. eexists. cbv zeta.
+  split; [lia|]. split; [reflexivity|]. split; [vm_compute; reflexivity|]. split; reflexivity.
+Qed.
+
+(** the same three inputs with all repairs on (sanity: the repaired model is not vacuous on them) *)
+Example repaired_on_the_witnesses :
+  let col3 := float_colouring 2 3 in let col1 := float_colouring 2 1 in let col2 := float_colouring 2 2 in
+  fst (fst (coll_exec col3 2 100 (split_trace all_fixed col3 2 [one_part; one_part; one_part] true (fun _ _ => 0)))) = true /\
+  map (fun r => map tab (split_state all_fixed col1 2 [one_part] true true (fun _ _ => 0) r)) [0; 1] = [[TData [0]]; [TData [0]]] /\
+  map (fun r => map (evaluable one_part) (split_state all_fixed col2 2 [one_part; one_part] false true (fun _ _ => 0) r)) [0; 1]
+    = [[true; true]; [true; true]].
+Proof. vm_compute. repeat split. Qed.
+
+(** ** OpenMP loop: any schedule gives the sequential table *)
+
+Section OMPProofs.
+Variable V : Type.
+Variable add : V -> V -> V.
+Variable val : nat -> V.
+
+Lemma nth_error_set_nth_other : forall (d : list V) a b v, a <> b -> nth_error (set_nth V d a v) b = nth_error d b.
+Proof.
+  intros d. induction d as [|x d IH]; intros a b v Hne; [destruct a; reflexivity|].
+  destruct a as [|a], b as [|b]; simpl; try reflexivity; [congruence|]. apply IH. congruence.
+Qed.
+
+Lemma set_nth_comm : forall (d : list V) a b v w, a <> b ->
+  set_nth V (set_nth V d a v) b w = set_nth V (set_nth V d b w) a v.
+Proof.
+  intros d. induction d as [|x d IH]; intros a b v w Hne; [destruct a, b; reflexivity|].
+  destruct a as [|a], b as [|b]; simpl; try reflexivity; [congruence|]. f_equal. apply IH. congruence.
+Qed.
+
+(** iterations on different cells commute: iteration w reads and writes cell w only *)
+Lemma iter_comm : forall d a b, iter V add val (iter V add val d a) b = iter V add val (iter V add val d b) a.
+Proof.
+  intros d a b. destruct (Nat.eq_dec a b) as [->|Hne]; [reflexivity|].
+  unfold iter.
+  destruct (nth_error d a) as [x|] eqn:Ea; cbv beta iota;
+    destruct (nth_error d b) as [y|] eqn:Eb; cbv beta iota;
+    rewrite ?nth_error_set_nth_other by congruence; rewrite ?Ea, ?Eb; cbv beta iota; try reflexivity.
+  apply set_nth_comm. exact Hne.
+Qed.
+
+(** C06 omp_schedule_independent: the table after the loop does not depend on the order in which the iterations
+    take effect -- any two schedules that are permutations of each other give the same table. *)
+Theorem omp_schedule_independent : forall s s', Permutation s s' ->
+  forall d, run_schedule V add val s d = run_schedule V add val s' d.
+Proof.
+  intros s s' Hp. induction Hp as [|x l l' Hp IH|x y l|l l' l'' Hp1 IH1 Hp2 IH2]; intros d.
+  - reflexivity.
+  - simpl. apply IH.
+  - simpl. rewrite iter_comm. reflexivity.
+  - rewrite IH1. apply IH2.
+Qed.
+
+(** in particular: any assignment of the iterations 0..n-1 to threads ([chunks], one list per thread, every
+    iteration in exactly one of them) executed in any interleaving [sched] gives the sequential result *)
+Corollary omp_any_partition : forall (chunks : list (list nat)) sched n d,
+  Permutation (concat chunks) (seq 0 n) -> Permutation sched (concat chunks) ->
+  run_schedule V add val sched d = run_schedule V add val (seq 0 n) d.
+Proof.
+  intros chunks sched n d H1 H2. apply omp_schedule_independent. eapply Permutation_trans; eassumption.
+Qed.
+
+End OMPProofs.
+
+(* ======================================================================================================= *)
+(** * Summary theorems for computeAll_split *)
+
+(** Everything C06 asks of computeAll_split, for a variant [fx] of the code and a family of colourings [mk]
+    (the colouring depends on P and on the number of components):
+      - every communicator sees one sequence of collectives, and the blocking run completes;
+      - for every component whose job map names ranks of its colour's communicator (C16 final_state):
+        the sender is rank 0 of the colour's communicator; the returned table is the full sum, the same on every
+        rank; without purging, the component can be evaluated on every rank from its full term lists. *)
+Definition split_correct_for (fx : fixes) (mk : nat -> nat -> colouring) (P : nat) : Prop :=
+  forall (comps : list component) (clear fne : bool) (jm : nat -> nat -> nat),
+  let col := mk P (length comps) in
+  collectives_match col P (split_trace fx col P comps clear jm) /\
+  (exists sched st', coll_run col P sched (split_trace fx col P comps clear jm) = Some st' /\
+                     forall r, r < P -> st' r = []) /\
+  forall k c, nth_error comps k = Some c -> jm_in_range (jm k) (nparts c) (colour_size col P k) ->
+    (In (sender fx col P k) (members col P (Colour (ecol col k))) /\
+     local_rank col (Colour (ecol col k)) (sender fx col P k) = 0) /\
+    (vanishing c = false -> 1 <= nparts c -> fne = true ->
+       exists l, Permutation l (seq 0 (nparts c)) /\
+                 forall r, exists st, nth_error (split_state fx col P comps clear fne jm r) k = Some st /\ tab st = TData l) /\
+    (clear = false ->
+       forall r, exists st, nth_error (split_state fx col P comps clear fne jm r) k = Some st /\
+                            evaluable c st = true /\ has_all_terms c st = true).
+
+Lemma split_correct_for_inhabited : forall fx mk P, fx = all_fixed -> 1 <= P ->
+  (forall ncomp, colours_inhabited (mk P ncomp) P ncomp) -> split_correct_for fx mk P.
+Proof.
+  intros fx mk P Hfx HP Hinh comps clear fne jm. cbv zeta. subst fx.
+  set (col := mk P (length comps)).
+  split; [apply collectives_match_split; reflexivity|].
+  split; [apply split_run_completes; [reflexivity|exact HP]|].
+  intros k c Hk Hjm.
+  assert (Hex : exists r, r < P /\ pcol col r = ecol col k).
+  { apply (Hinh (length comps)). apply nth_error_Some. rewrite Hk. discriminate. }
+  split; [|split].
+  - destruct (reduce_root_is_sender all_fixed col P eq_refl k Hex) as [H1 [H2 _]]. split; assumption.
+  - intros Hv Hnp Hfne. apply tables_all_ranks_sum with (c := c); try assumption; reflexivity.
+  - intros Hc. apply terms_and_status_everywhere; try assumption; reflexivity.
+Qed.
+
+(** all P >= 1, colours in exact arithmetic *)
+Theorem split_repaired_exact : forall P, 1 <= P -> split_correct_for all_fixed exact_colouring P.
+Proof.
+  intros P HP. apply split_correct_for_inhabited; [reflexivity|exact HP|].
+  intros ncomp. apply well_formed_inhabited. apply every_colour_nonempty_exact. exact HP.
+Qed.
+
+(** 1 <= P <= 64, colours as the C++ computes them (doubles) *)
+Theorem split_repaired_float64 : forall P, 1 <= P <= 64 -> split_correct_for all_fixed float_colouring P.
+Proof.
+  intros P HP. apply split_correct_for_inhabited; [reflexivity|lia|].
+  intros ncomp. apply well_formed_inhabited. apply every_colour_nonempty_float. exact HP.
+Qed.
+
+(** any P, float colours, given the executable check the driver evaluates for the configuration at hand *)
+Theorem split_repaired_float_checked : forall P comps, 1 <= P ->
+  colours_ok_b (float_colouring P (length comps)) P (length comps) = true ->
+  forall clear fne jm, let col := float_colouring P (length comps) in
+  collectives_match col P (split_trace all_fixed col P comps clear jm) /\
+  (exists sched st', coll_run col P sched (split_trace all_fixed col P comps clear jm) = Some st' /\
+                     forall r, r < P -> st' r = []) /\
+  forall k c, nth_error comps k = Some c -> jm_in_range (jm k) (nparts c) (colour_size col P k) ->
+    (vanishing c = false -> 1 <= nparts c -> fne = true ->
+       exists l, Permutation l (seq 0 (nparts c)) /\
+                 forall r, exists st, nth_error (split_state all_fixed col P comps clear fne jm r) k = Some st /\ tab st = TData l) /\
+    (clear = false ->
+       forall r, exists st, nth_error (split_state all_fixed col P comps clear fne jm r) k = Some st /\
+                            evaluable c st = true /\ has_all_terms c st = true).
+Proof.
+  intros P comps HP Hok clear fne jm. cbv zeta. set (col := float_colouring P (length comps)).
+  apply colours_ok_b_spec in Hok. fold col in Hok.
+  split; [apply collectives_match_split; reflexivity|].
+  split; [apply split_run_completes; [reflexivity|exact HP]|].
+  intros k c Hk Hjm.
+  assert (Hex : exists r, r < P /\ pcol col r = ecol col k).
+  { apply Hok. apply nth_error_Some. rewrite Hk. discriminate. }
+  split.
+  - intros Hv Hnp Hfne. apply tables_all_ranks_sum with (c := c); try assumption; reflexivity.
+  - intros Hc. apply terms_and_status_everywhere; try assumption; reflexivity.
+Qed.
+
+(** the hypotheses of the summary theorems are satisfiable by non-trivial values: 3 ranks, 4 components
+    (one vanishing), a job map that spreads the parts over the colour's ranks *)
+Example split_correct_nontrivial :
+  let comps := [mkcomp false 3; mkcomp true 0; mkcomp false 2; mkcomp false 1] in
+  let col := float_colouring 3 (length comps) in
+  let jm := fun k p => p mod (colour_size col 3 k) in
+  forallb (fun k => forallb (fun p => jm k p <? colour_size col 3 k) (seq 0 3)) (seq 0 4) = true /\
+  map (colour_size col 3) (seq 0 4) = [1; 1; 1; 1] /\
+  map (pcol col) (seq 0 3) = [0; 1; 2] /\ map (ecol col) (seq 0 4) = [0; 0; 1; 2].
+Proof. vm_compute. repeat split. Qed.
+
+Example split_correct_nontrivial_2 :
+  let comps := [mkcomp false 3; mkcomp false 2] in
+  let col := float_colouring 5 (length comps) in
+  let jm := fun k p => p mod (colour_size col 5 k) in
+  map (colour_size col 5) (seq 0 2) = [3; 2] /\
+  map (fun r => map tab (split_state all_fixed col 5 comps false true jm r)) (seq 0 5) =
+    repeat [TData [0; 1; 2]; TData [0; 1]] 5 /\
+  map (fun r => map (fun kc => evaluable (snd kc) (fst kc)) (combine (split_state all_fixed col 5 comps false true jm r) comps)) (seq 0 5) =
+    repeat [true; true] 5.
+Proof. vm_compute. repeat split. Qed.
